@@ -500,6 +500,11 @@ struct Value {
             return;
         }
         auto bech = result.data;
+        if (bech.empty()) {
+            // a valid checksum over an empty data part: there is no witness version symbol to read
+            fprintf(stderr, "failed to bech32(m)-decode string (empty data part)\n");
+            return;
+        }
         // Bech32(m) decoding
         int version = bech[0]; // The first 5 bit symbol is the witness version (0-16)
         // data = r.second;
